@@ -258,6 +258,16 @@ func (t *SessionTeardown) cleanup(session *Session, cause TerminateCause) error 
 	t.mu.Lock()
 	defer t.mu.Unlock()
 
+	// Another termination path (client PADT, admin action, RADIUS disconnect,
+	// shutdown) may have got hold of the same session before it was removed
+	// from the session manager: only the first one cleans up
+	if !session.beginTeardown() {
+		t.logger.Debug("Session already torn down, nothing to do",
+			zap.Uint16("session_id", session.ID),
+		)
+		return nil
+	}
+
 	ctx, cancel := context.WithTimeout(context.Background(), t.config.CleanupTimeout)
 	defer cancel()
 
